@@ -167,6 +167,14 @@ pub fn run_case(c: &Case, rec: &mut CaseRec) -> Result<(), String> {
     dim(permuted, "stored_order_not_dictionary_order", rec);
     let descending = e.stored.len() >= 2 && e.stored.windows(2).all(|w| w[1].0 < w[0].0);
     dim(descending, "stored_order_descending", rec);
+    // the descriptor table is not in order of first occurrence in the source (first uses of the table entries not ascending)
+    let mut seen: Vec<u32> = vec![];
+    for r in &e.dict.rebuild_order {
+        if !seen.contains(r) {
+            seen.push(*r);
+        }
+    }
+    dim(seen.windows(2).any(|w| w[1] < w[0]), "descriptor_table_not_in_first_occurrence_order", rec);
     let gaps = {
         let mut v: Vec<(u64, usize)> = e.stored.clone();
         v.sort();
@@ -209,8 +217,9 @@ fn spec_strategy() -> impl Strategy<Value = EncSpec> {
         prop_oneof![2 => Just(BTreeMap::new()), 1 => prop::collection::btree_map("[a-z]{0,6}", prop::collection::vec(any::<u8>(), 0..20), 1..3)],
         prop_oneof![Just("0.13.0".to_string()), Just(String::new()), Just("9.99.9-other-tool".to_string())],
         prop_oneof![3 => Just(0u8), 1 => 1u8..50],
+        prop_oneof![3 => Just(vec![]), 1 => prop::collection::vec(any::<u16>(), 1..8), 1 => Just(vec![9u16, 8, 7, 6, 5, 4, 3, 2, 1, 0])],
     )
-        .prop_map(|((legacy_magic, slack, order_keys, gaps), storage, (ud, udesc, up, uc), (explicit_zeros, unpacked_rebuild), metadata, version, trailing)| EncSpec {
+        .prop_map(|((legacy_magic, slack, order_keys, gaps), storage, (ud, udesc, up, uc), (explicit_zeros, unpacked_rebuild), metadata, version, trailing, desc_keys)| EncSpec {
             legacy_magic,
             slack,
             order_keys,
@@ -221,6 +230,7 @@ fn spec_strategy() -> impl Strategy<Value = EncSpec> {
             metadata,
             version,
             trailing,
+            desc_keys,
         })
 }
 
